@@ -270,3 +270,38 @@ Definition save_ok (r : dir val * result unit) (obs_dir : dir val) (obs_res : re
   dir_eqb (fst r) obs_dir && res_eqb (fun _ _ => true) (snd r) obs_res.
 
 Definition rn_eqb (a b : val * bool) : bool := val_eqb (fst a) (fst b) && Bool.eqb (snd a) (snd b).
+
+Definition load_plain_ok (d : dir val) (base : name) (ntask : Z) (obs : list (result (list val))) : bool :=
+  list_eqb (res_eqb (list_eqb val_eqb)) (map (load_plain val d base ntask) (zrange 0 ntask)) obs.
+
+Definition load_resid_ok (d : dir val) (base : name) (ntask : Z)
+           (obs : list (result (val * list (val * bool)))) : bool :=
+  list_eqb (res_eqb (fun a b => val_eqb (fst a) (fst b) && list_eqb rn_eqb (snd a) (snd b)))
+           (map (load_resid val d base ntask) (zrange 0 ntask)) obs.
+
+(* ---- IEEE binary64 instance for the bit-exact comparison of StatCalculator / average ---- *)
+From Coq Require Import PrimFloat Uint63.
+
+Definition float_ops : fops float :=
+  mk_fops float 0%float 1%float PrimFloat.add PrimFloat.sub PrimFloat.mul PrimFloat.div
+          (fun z => PrimFloat.of_uint63 (Uint63.of_Z z)).
+
+(* same bits (no NaNs occur in the generated cases; eqb identifies +0 and -0, so the sign of a
+   zero is compared through 1/x) *)
+Definition feq (a b : float) : bool :=
+  PrimFloat.eqb a b && PrimFloat.eqb (PrimFloat.div 1 a) (PrimFloat.div 1 b).
+
+Definition stat_ok (xs : list float) (m v : float) : bool :=
+  match sample_stat float float_ops xs with
+  | Ret (m', v') => feq m m' && feq v v'
+  | _ => false
+  end.
+
+Definition avg_ok (xs : list float) (m : float) : bool :=
+  match average float float_ops xs with Ret m' => feq m m' | _ => false end.
+
+Definition sharerange_ok (nwork nshares myshare lo hi : Z) : bool :=
+  let r := shareRange nwork nshares myshare in (fst r =? lo) && (snd r =? hi).
+
+Definition conslen_ok (lst : list Z) (obs : result Z) : bool :=
+  res_eqb Z.eqb (consecutive_length lst) obs.
